@@ -351,13 +351,43 @@ macro_rules! class_body {
                         ensure!(u1 != s2 && !(u1 == s2) && s1 != u2, "C14,C12", "cmp", "ArcUnion first vs second compare equal {}", tag);
                         // formatting
                         ensure!(format!("{:?}", x.one) == format!("{:?}", hx), "C14", "fmt", "Arc {{:?}} {}", tag);
+                        // formatter flags must reach the value's impl
+                        macro_rules! flags_same {
+                            ($h:expr, $name:expr) => {
+                                ensure!(
+                                    format!("{:#?}", $h) == format!("{:#?}", hx)
+                                        && format!("{:>9?}", $h) == format!("{:>9?}", hx)
+                                        && format!("{:<7?}|", $h) == format!("{:<7?}|", hx)
+                                        && format!("{:+?}", $h) == format!("{:+?}", hx)
+                                        && format!("{:08.3?}", $h) == format!("{:08.3?}", hx),
+                                    "C14",
+                                    "fmt",
+                                    "{} {{:?}} with formatter flags differs from the value's: {:?} vs {:?} ({})",
+                                    $name,
+                                    format!("{:>9?}", $h),
+                                    format!("{:>9?}", hx),
+                                    tag
+                                );
+                            };
+                        }
+                        flags_same!(x.one, "Arc");
+                        flags_same!(ox, "OffsetArc");
+                        flags_same!(x.one.borrow_arc(), "ArcBorrow");
                         ensure!(format!("{:?}", ox) == format!("{:?}", hx), "C14", "fmt", "OffsetArc {{:?}} {}", tag);
                         ensure!(format!("{:?}", x.one.borrow_arc()) == format!("{:?}", hx), "C14", "fmt", "ArcBorrow {{:?}} prints {} for value {:?}", format!("{:?}", x.one.borrow_arc()), hx);
                         let du = format!("{:?}", u1);
                         ensure!(du.contains(&format!("{:?}", hx)) && !du.contains("0x") && du == format!("{:?}", u1.clone()) && du != format!("{:?}", s1), "C14", "fmt", "ArcUnion {{:?}} = {} is not a function of variant and value {:?}", du, hx);
                     }
                     ensure!(format!("{:?}", x.fat) == format!("{:?}", &*x.fat), "C14", "fmt", "Arc<HeaderSlice> {{:?}} differs from the value's {}", tag);
+                    ensure!(
+                        format!("{:#?}", x.fat) == format!("{:#?}", &*x.fat) && format!("{:>40?}", x.sl) == format!("{:>40?}", &*x.sl),
+                        "C14",
+                        "fmt",
+                        "Arc<HeaderSlice>/Arc<[T]> {{:#?}} / padded {{:?}} differs from the value's {}",
+                        tag
+                    );
                     if let Some(tx) = &x.thin {
+                        ensure!(format!("{:#?}", tx) == format!("{:#?}", &**tx), "C14", "fmt", "ThinArc {{:#?}} differs from the value's {}", tag);
                         ensure!(format!("{:?}", tx) == format!("{:?}", &**tx), "C14", "fmt", "ThinArc {{:?}} differs from the value's {}", tag);
                     }
                     st.counts.bump("cmp.pairs");
@@ -486,6 +516,13 @@ pub fn class_total(vals: &Vec<Val>, st: &mut CmpStats) -> R {
             st.counts.bump("cmp.pairs");
         }
     }
+    let fl: Arc<f64> = Arc::new(3.14159);
+    ensure!(
+        format!("{:8.2}|{:<8}|{:+}|{:e}", fl, fl, fl, *fl) == format!("{:8.2}|{:<8}|{:+}|{:e}", 3.14159f64, 3.14159f64, 3.14159f64, 3.14159f64),
+        "C14",
+        "fmt",
+        "Arc<f64> Display with flags differs from the value's"
+    );
     let n: Arc<u64> = Arc::new(42);
     ensure!(
         format!("{}", n) == "42" && format!("{:>5}", n) == format!("{:>5}", 42u64),
